@@ -10,8 +10,8 @@ Decided by
       restored = the assignments of restore_ir_classes            [(slot written, key read)]
     plus, per wrapper factory, the statement list of its inner `wrapper` (WRead/WRecord/WCall/
     WCallRet — i.e. "record then call" vs "call then record" and whether the result is returned).
-    Journal.__enter__/__exit__/record/__init__ and the JournalEntry fields are pinned by
-    normalised-AST digest (the hand model of enter/exit in Model.v transcribes exactly that text).
+    Journal.__enter__/__exit__/record/__init__ are translated statement by statement and proved equal to the
+    hand model (C20/Journal.v); the JournalEntry field list is pinned.
   * a correspondence check: every generated scenario is run three times on the real implementation
     (plain / journaled / journaled over a harness tracer installed beneath the journals); the
     observations are compared (a) directly, journaled vs plain, and (b) inside Coq against `run` of
@@ -125,6 +125,21 @@ Round 5: `local_objs` creates a small graph that is owned ONLY by a local variab
   such objects and are left by an exception that the caller handles (try) while the Journal object is kept.  The
   weak-reference clause then requires these objects to be dead too: a journal that keeps the exception (hence
   its traceback, hence the block's frame) alive is reported with a replay (C20-r5m3).
+Second deepening round (the model IS the translated source): Journal.__init__/__enter__/__exit__/record are no
+  longer pinned by digest but translated statement by statement (`_jstmt`: one `jstmt` of C20/Types.v per Python
+  statement, `JOther "<text>"` for anything without a meaning in the model) into Gen/C20Gen.v (j_init, j_enter,
+  j_exit, j_record); C20/Journal.v interprets the lists over the model state and proves
+  C20_enter_translated (jrun j j_enter st = Some (enter j st, Some VSelf)), C20_exit_translated (... = Some
+  (exit_ j st, None): in particular __exit__ returns None, it never suppresses the block's exception),
+  C20_record_translated (jrec hooks j e j_record None = Some (record hooks j e): entry built, appended, hooks
+  called; no filter, no de-duplication) and C20_journal_weak_only (JournalEntry keeps only weakref.ref(obj) of
+  the object — every keyword argument is classified scalar/weak/strong by `_ekind`; no method stores a parameter
+  (object, exception, traceback) in a field; every field written is declared in __init__; `_get_stack_trace`
+  is exactly traceback.extract_stack()[:-3]).  Edits such as r5m3 (self._exception = exc_value), r4m3/r5m1
+  (guards in record) now leave Gen current, break the named equality (e.g. Journal.v:exit_translated) AND the
+  full case stream still runs.  Argument forwarding of the wrappers is part of the extracted data
+  (Gen `forwarding`: passes self / positional + *args / **kwargs per call of the original) and decided by
+  C20_forwarding_complete instead of a translator rejection (r5m2).
 Modelled, not verified: purity of details_func/repr/getattr inside wrappers (exercised by (i) — and
   this is exactly where the finding below was), weakref/traceback/time, determinism of the originals,
   hooks (user callbacks), threads.
@@ -397,45 +412,6 @@ def _property_parts(value, ch, fname):
         _need(_chain(value.args[0]) == ch + ["fget"], f"{fname}: property getter is not {'.'.join(ch)}.fget", value)
         return value.args[1]
     return None
-
-
-# The hand model of Journal.__enter__/__exit__/record in C20/Model.v transcribes exactly this text.
-_PINNED_JOURNAL = '''
-class Journal:
-    def __enter__(self) -> Self:
-        global _current_journal
-        self._previous_journal = _current_journal
-        _current_journal = self
-        self._original_methods = _wrappers.wrap_ir_classes(self)
-        return self
-
-    def __exit__(self, exc_type, exc_value, exc_tb) -> None:
-        _wrappers.restore_ir_classes(self._original_methods)
-        global _current_journal
-        _current_journal = self._previous_journal
-
-    def record(self, obj: Any, operation: str, details: str | None = None) -> None:
-        """Record a new journal entry."""
-        entry = JournalEntry(
-            timestamp=time.time(),
-            operation=operation,
-            class_=obj.__class__,
-            class_name=obj.__class__.__name__,
-            ref=weakref.ref(obj) if obj is not None else None,
-            object_id=id(obj),
-            stack_trace=_get_stack_trace(),
-            details=details,
-        )
-        self._entries.append(entry)
-        for hook in self._hooks:
-            hook(entry)
-
-    def __init__(self) -> None:
-        self._entries: list[JournalEntry] = []
-        self._previous_journal: Journal | None = None
-        self._hooks: list[Callable[[JournalEntry], None]] = []
-        self._original_methods: dict[str, Callable] = {}
-'''
 
 
 def _jval(e, params):
